@@ -728,4 +728,6 @@ def check(rep, F, tier, replay=None):
     rule_cast(rep, F, aud)
     from ruleutil import hash_eq_rule
     hash_eq_rule(rep, F)
+    from ruleutil import ser_filter_rule
+    ser_filter_rule(rep, F)
     return rep.finish(EXPLANATION, ASSUMPTIONS, trusted_base=["csl-facts driver (HIR dump of the type-checked crate)", "cbor_event Serializer semantics (one call = one item)", "tables/e2_audited.json"])
